@@ -93,6 +93,23 @@ def delegation_rule(chk, prog, roles):
         call = calls[0]
         pairs.append((fn, callee_name(call)))
         a = call_args(call)
+        # the wrapper does nothing else with the library: no shortcut through another entry point
+        extra = sorted({callee_name(x) for x in walk(prog.body(f)) if x.get("kind") == "CallExpr" and callee_name(x) in lib} -
+                       {loader, callee_name(call)})
+        chk.require(not extra, "DELEG", key + "/only", loc_str(f),
+                    "%s calls no library function besides the loader and its string counterpart (every call takes the same route)" % fn,
+                    "also calls %s" % extra)
+        # ... and the delegation is unconditional: the call is not nested in a branch on the wrapper's own arguments
+        cond_on_args = []
+        for m, parents in walk_with_parents(prog.body(f)):
+            if m is call:
+                for pnode in parents:
+                    if pnode.get("kind") in ("IfStmt", "ConditionalOperator", "SwitchStmt", "WhileStmt", "ForStmt"):
+                        cnd = (pnode.get("inner") or [None])[2 if pnode["kind"] == "ForStmt" else 0]
+                        if cnd and any(d.get("kind") == "DeclRefExpr" and ref_name(d) in ps for d in walk(cnd)):
+                            cond_on_args.append(pnode)
+        chk.require(not cond_on_args, "DELEG", key + "/unconditional", loc_str(call),
+                    "the call of the string entry point does not depend on the wrapper's own arguments", "nested in %s on an argument" % [x.get("kind") for x in cond_on_args])
         # same instance, the loaded text, and (for counting) the caller's chunk size and result pointer
         txtvar = None
         for m in walk(prog.body(f)):
@@ -111,6 +128,9 @@ def delegation_rule(chk, prog, roles):
                     if p.get("kind") == "VarDecl":
                         resvar = p["name"]
                         break
+                    if p.get("kind") == "BinaryOperator" and p.get("opcode") == "=" and ref_name(strip(kids(p)[0], casts=True)):
+                        resvar = ref_name(strip(kids(p)[0], casts=True))
+                        break
                     if p.get("kind") == "ReturnStmt":
                         resvar = "<direct>"
                         break
@@ -124,6 +144,80 @@ def delegation_rule(chk, prog, roles):
     chk.floor("file wrappers", len(pairs), 2)
     chk.analysed["delegation"] = pairs
     return pairs
+
+
+def unmap_length_rule(chk, prog, loader, maps, asg, pairs):
+    """UNMAP: every munmap of the loaded text is given exactly the length that was mapped (munmap(p, 0) fails with EINVAL and a
+    shorter length leaks pages)"""
+    lf = prog.fn(loader)
+    outs = [p for p in prog.params(lf) if qtype(p).replace(" ", "") in ("size_t*", "unsignedlong*")]
+    n = 0
+    if len(maps) != 1:
+        return
+    mlen = call_args(maps[0])[1]
+    sizes = (0, 1, 4095, 4096, 4097, 1 << 20)
+
+    def same_length(e, env_extra=None):
+        for size in sizes:
+            env = {"$size": size}
+            a = _eval_with(prog, mlen, env, asg)
+            b = _eval_with(prog, e, env, asg)
+            if a is None or b is None:
+                return None, size
+            if a != b:
+                return False, (size, a, b)
+        return True, None
+    # inside the loader
+    for c in walk(prog.body(lf)):
+        if c.get("kind") == "CallExpr" and callee_name(c) == "munmap":
+            n += 1
+            ok, w = same_length(call_args(c)[1])
+            if ok is None:
+                chk.broken("UNMAP", "UNMAP/%s@%s" % (loader, loc_str(c)), loc_str(c), "the munmap length can be compared with the mapped length", expr_str(call_args(c)[1]))
+            else:
+                chk.require(ok, "UNMAP", "UNMAP/%s@%s" % (loader, loc_str(c)), loc_str(c),
+                            "the loader unmaps exactly the length it mapped", "for a file of %s bytes: mapped %s, unmapped %s" % (w or (0, 0, 0)))
+    # the length reported to the callers
+    stores = []
+    for m in walk(prog.body(lf)):
+        if m.get("kind") == "BinaryOperator" and m.get("opcode") == "=":
+            l = strip(kids(m)[0], casts=True)
+            if l.get("kind") == "UnaryOperator" and l.get("opcode") == "*" and outs and ref_name(strip(kids(l)[0], casts=True)) == outs[0]["name"]:
+                stores.append(m)
+    for m in stores:
+        n += 1
+        ok, w = same_length(kids(m)[1])
+        if ok is None:
+            chk.broken("UNMAP", "UNMAP/reported@%s" % loc_str(m), loc_str(m), "the reported length can be compared with the mapped length", expr_str(kids(m)[1]))
+        else:
+            chk.require(ok, "UNMAP", "UNMAP/reported@%s" % loc_str(m), loc_str(m),
+                        "the length the loader reports to its callers is the mapped length", "for a file of %s bytes: mapped %s, reported %s" % (w or (0, 0, 0)))
+    # the wrappers hand exactly that variable to munmap, for the pointer the loader returned
+    for fn, _ in pairs:
+        f = prog.fn(fn)
+        lv = pv = None
+        for m in walk(prog.body(f)):
+            if m.get("kind") == "VarDecl" and kids(m) and strip(kids(m)[-1], casts=True).get("kind") == "CallExpr" and \
+                    callee_name(strip(kids(m)[-1], casts=True)) == loader:
+                pv = m["name"]
+                for a in call_args(strip(kids(m)[-1], casts=True)):
+                    a0 = strip(a, casts=True)
+                    if a0.get("kind") == "UnaryOperator" and a0.get("opcode") == "&":
+                        lv = ref_name(strip(kids(a0)[0]))
+        for c in walk(prog.body(f)):
+            if c.get("kind") == "CallExpr" and callee_name(c) == "munmap":
+                n += 1
+                a = call_args(c)
+                ok = ref_name(strip(a[0], casts=True)) == pv and ref_name(strip(a[1], casts=True)) == lv and lv is not None
+                chk.require(ok, "UNMAP", "UNMAP/%s" % fn, loc_str(c),
+                            "%s unmaps the loaded text with the length the loader reported" % fn, "munmap(%s, %s)" % (expr_str(a[0]), expr_str(a[1])))
+        # the length variable is written by nobody but the loader
+        if lv:
+            for a in EFF.accesses(prog.body(f)):
+                nd = strip(a.node)
+                if nd.get("kind") == "DeclRefExpr" and ref_name(nd) == lv and a.ctx in ("w", "rw"):
+                    chk.bad("UNMAP", "UNMAP/%s/length-modified" % fn, loc_str(a.node), "the reported length reaches munmap unmodified", a.text)
+    chk.floor("unmap length sites", n, 3)
 
 
 def run(chk, prog, tier):
@@ -180,6 +274,7 @@ def run(chk, prog, tier):
         ok = cnt.get("kind") == "BinaryOperator" and cnt.get("opcode") == "-"
         chk.require(ok, "CSTR", "CSTR/read-bound", loc_str(r), "each read() asks for at most the bytes still missing (file size minus bytes done)", expr_str(cnt))
     pairs = delegation_rule(chk, prog, roles)
+    unmap_length_rule(chk, prog, loader, maps, asg, pairs)
     # ---- failure returns of loader and wrappers (ERR) ----------------------------------------------------------
     from checks import C17
     kinds = dict(ERR.OS_FAIL)
